@@ -380,7 +380,13 @@ func (api *API) mapDecodeStruct(ctx context.Context, mapVal any, value reflect.V
 			return ierrors.Wrap(err, "missing type key in struct")
 		}
 		if castedMapObjectCode, ok := mapObjectCode.(float64); !ok || uint32(castedMapObjectCode) != objectCode {
-			return ierrors.Errorf("map type key (%d) not equal registered object code (%d)", mapObjectCode, objectCode)
+			// (the value under the type key comes from the input: it is not formatted as a whole - fmt walks nested slices
+			// and maps without any limit)
+			if ok {
+				return ierrors.Errorf("map type key (%d) not equal registered object code (%d)", uint32(castedMapObjectCode), objectCode)
+			}
+
+			return ierrors.Errorf("map type key is not a number but a %T, registered object code (%d)", mapObjectCode, objectCode)
 		}
 	}
 
